@@ -584,6 +584,7 @@ func checkC16(c *Check) {
 			}
 		}
 	}
+	headersOwnBacking(c, "C16.R4", R)
 	c.Obl(bad == 0, "C16.R4", "scan", "-", "no per-check handler, HTTP client or generator is stored into shared state", "per-check objects leak into shared state")
 }
 
